@@ -1,2 +1,68 @@
 import Gopki.Model.Db
-import Gopki.Model.Hash
+/-! # C14 — existing private keys and CSRs are reused, never replaced or invented -/
+namespace C14
+open Gen Config
+
+/-- a stored private key is the key of the new certificate context, whatever the configuration says
+    (including a changed `keyAlgorithm`), and — unless the key fields are manipulated — the certificate
+    carries that key's public key -/
+theorem C14_key_kept (c : V1.CertificateContent) (k : PrivKey) (req : Option Spki) (o : Oracle) (ctx : Context)
+    (h : buildCertBody c (some k) req o = .ok ctx) :
+    ctx.key = some k ∧
+    (c.manipulations.tbsPublicKey = none → ctx.tbs.spki.bits = k.spki.bits) ∧
+    (c.manipulations.tbsPublicKeyAlgorithm = none → c.manipulations.tbsPublicKey = none → ctx.tbs.spki.alg.oid = k.spki.alg.oid) := by
+  unfold buildCertBody at h
+  split at h
+  · simp at h
+  · simp only [Except.ok.injEq] at h
+    subst h
+    refine ⟨rfl, ?_, ?_⟩
+    · intro hm; simp only [hm]; split <;> rfl
+    · intro ha hm; simp only [ha, hm]
+
+/-- a stored request and no key: the certificate carries the request's public key and no private key
+    comes into existence -/
+theorem C14_csr (c : V1.CertificateContent) (r : Spki) (o : Oracle) (ctx : Context)
+    (h : buildCertBody c none (some r) o = .ok ctx) :
+    ctx.key = none ∧ (c.manipulations.tbsPublicKey = none → ctx.tbs.spki.bits = r.bits) := by
+  unfold buildCertBody at h
+  split at h
+  · simp at h
+  · simp only [Except.ok.injEq] at h
+    subst h
+    refine ⟨rfl, ?_⟩
+    intro hm; simp only [hm]; split <;> rfl
+
+/-- only an entity with neither key nor request gets the freshly generated key -/
+theorem C14_fresh_only_when_nothing_stored (c : V1.CertificateContent) (prk : Option PrivKey) (req : Option Spki) (o : Oracle) (ctx : Context)
+    (h : buildCertBody c prk req o = .ok ctx) (hfresh : ctx.key = some o.freshKey) (hne : prk ≠ some o.freshKey) :
+    prk = none ∧ req = none := by
+  unfold buildCertBody at h
+  split at h
+  · simp at h
+  · simp only [Except.ok.injEq] at h
+    subst h
+    cases prk with
+    | some k => simp at hfresh; exact absurd (by rw [hfresh]) hne
+    | none => cases req with
+      | some r => simp at hfresh
+      | none => exact ⟨rfl, rfl⟩
+
+/-- `GenerateArtifacts` hands the stored key (or none, for a request) on to the new artifact -/
+theorem C14_generate_returns_stored_key (s : Db.State) (a : String) (o : Oracle) (g : Db.Generated) (e : Db.Entity) (k : PrivKey)
+    (he : s.find a = some e) (hk : e.art.key = some k) (h : Db.generateArtifacts s a o = .ok g) : g.key = some k := by
+  unfold Db.generateArtifacts at h
+  simp only [he] at h
+  split at h
+  · simp at h
+  · rename_i ctx hb
+    rw [hk] at hb
+    have hkey : ctx.key = some k := (C14_key_kept _ _ _ _ _ hb).1
+    split at h
+    · simp at h
+    · split at h
+      · simp at h
+      · simp only [Except.ok.injEq] at h
+        subst h; exact hkey
+
+end C14
